@@ -18,7 +18,7 @@ POOL_ASSUME = COMMON_ASSUME + [
 PROPS = {
     "C13": dict(kind="harness", pkg="./mesim", test="TestC13",
                 quick=dict(checks=3000, shards=4, env={"VERIF_EXH_DEPTH": "4"}, timeout=600),
-                thorough=dict(checks=400000, shards=16, env={"VERIF_EXH_DEPTH": "5"}, timeout=3300),
+                thorough=dict(checks=400000, shards=16, env={"VERIF_EXH_DEPTH": "5"}, timeout=10800),
                 rule="rapid state-machine histories (1-40 ops: availability reports incl. unknown endpoints, list replacements incl. "
                      "empty/duplicate/reorder/remove/re-add, clock advances to timer boundaries +-1ns, timer firing in generated orders) over "
                      "(R,D) in {0,5,50}x{0,3,5,50,80} plus a bounded-exhaustive enumeration (exhaustive.depth ops over 3 endpoints, 25-op alphabet, 7 configs) "
@@ -27,7 +27,7 @@ PROPS = {
                 assume=COMMON_ASSUME + ["package clock replaced through the package's own timeNow/timeAfterFunc test variables; timer callbacks run synchronously on the harness goroutine"]),
     "C14": dict(kind="harness", pkg="./mesim", test="TestC14",
                 quick=dict(checks=3000, shards=4, env={"VERIF_EXH_DEPTH": "4"}, timeout=600),
-                thorough=dict(checks=400000, shards=16, env={"VERIF_EXH_DEPTH": "5"}, timeout=3300),
+                thorough=dict(checks=400000, shards=16, env={"VERIF_EXH_DEPTH": "5"}, timeout=10800),
                 rule="same generator and enumerator as C13, oracles: recovering current endpoint kept while no higher-priority endpoint is available, "
                      "no move away from a usable current endpoint inside the call that made a better one available (D>0), never from an available endpoint to a lower-priority one "
                      "(checked after every op and after every single timer callback), convergence to the top available endpoint after quiescence; "
@@ -48,7 +48,7 @@ SCHED_RULE = (" A third generator runs small concurrent programs under a coopera
 def _pool(test, rule, nontriv, quick=12000, thorough=400000, extra_assume=None, conc=None):
     d = dict(kind="harness", pkg="./poolsim", test=test,
                 quick=dict(checks=quick, shards=4, timeout=600),
-                thorough=dict(checks=thorough, shards=16, timeout=3300),
+                thorough=dict(checks=thorough, shards=16, timeout=10800),
                 rule="rapid-generated pool histories (resolver updates, state reports for pool/replacement/removed/unknown conns, picks on current and stale pickers "
                      "with plain/BIND/BOUND/UNBIND methods and keys from a 4-key alphabet, completions with 6 outcomes, clock advances incl. detector-window boundaries +-1ns, "
                      "factory failures; steering composites expand to primitive ops) executed against the real balancer behind a fake ClientConn in a synctest bubble and "
@@ -76,7 +76,7 @@ CONC_RULE_PLACEHOLDER = (" A second generator (engine conc) runs concurrent work
 PROPS.update({
     "C10": dict(kind="harness", pkg="./conc", test="TestC10", race=True, instr=True,
                 quick=dict(checks=250, shards=4, timeout=900, env={"GORACE": "halt_on_error=0 history_size=3"}),
-                thorough=dict(checks=10000, shards=12, timeout=3500, env={"GORACE": "halt_on_error=0 history_size=3"}),
+                thorough=dict(checks=10000, shards=12, timeout=10800, env={"GORACE": "halt_on_error=0 history_size=3"}),
                 rule="generated workload programs compiled with -race on instrumented sources (yield points in front of every mutex/atomic operation of the five library files; the yield hook perturbs the schedule "
                      "with Gosched / microsecond sleeps from a seeded generator). W1 pool: one goroutine issues the serialized balancer callbacks (state flaps, resolver updates, resolver errors, bringing new "
                      "and replacement connections up), 2-8 goroutines run pick->complete loops on current and stale pickers with plain/BIND/BOUND/UNBIND methods, already expired deadlines and a 1 ms detection window "
@@ -91,7 +91,7 @@ PROPS.update({
                 files={"leaf/e2e-checksum/codec_verif_test.go": "zz_verif_codec_test.go"},
                 tests=[(".", "TestC19")],
                 quick=dict(checks=3000, shards=4, timeout=900),
-                thorough=dict(checks=150000, shards=16, timeout=3300, fuzz=[(".", "FuzzC19", 180)]),
+                thorough=dict(checks=150000, shards=16, timeout=10800, fuzz=[(".", "FuzzC19", 180)]),
                 rule="descriptor-driven message filler over 20 root message types already linked into the module (structpb Value/Struct/ListValue, descriptorpb File/Descriptor/FieldOptions, "
                      "datastore Entity/Value/Key/CommitRequest/RunQueryRequest/LookupResponse/Mutation, Any, wrappers, Api, Type): field presence, scalar extremes, unknown enum numbers, nested depth <=5, "
                      "repeated 0-8 (rarely 130/300), maps, oneofs, bytes up to 70000 (rarely 2 MiB), rarely depth 9/14, well-formed unknown fields (incl. an own field 2047) appended; a case is a HISTORY of 1-6 Marshal calls on one codec "
@@ -107,7 +107,7 @@ PROPS.update({
                        "leaf/spanner_prober/main_verif_test.go": "zz_verif_main_test.go"},
                 tests=[("./prober", "TestC18Prober"), (".", "TestC18Flags")],
                 quick=dict(checks=30000, shards=2, timeout=900),
-                thorough=dict(checks=1000000, shards=16, timeout=3300, fuzz=[("./prober", "FuzzT4T7", 90), (".", "FuzzFlags", 90)]),
+                thorough=dict(checks=1000000, shards=16, timeout=10800, fuzz=[("./prober", "FuzzT4T7", 90), (".", "FuzzFlags", 90)]),
                 rule="in-package tests compiled in a scratch copy of spanner_prober. Backoff: (base,max,retries...) with 0<=base<=max over the whole int64 range (classes: small, <1h, around 2^53 ns, "
                      "near MaxInt64, uniform), increasing retry counts up to 2^62 (huge counts only for base>0), oracle base<=b<=max and non-decreasing. GFE latency: header/trailer metadata pairs "
                      "(present/absent/empty lists, 0-4 entries from a pool of 20 well- and ill-formed entries plus random values) against a reference parser written from the statement; no panic. "
@@ -121,7 +121,7 @@ PROPS.update({
                                        dict(pkg="./cfg", test="TestC17", replay_key="text"), dict(pkg="./poolsim", test="TestC17Pool", replay_key="ops"),
                                        dict(pkg="./gmesim", test="TestC17GME", replay_key="init", quick_checks=400, thorough_checks=20000)],
                 quick=dict(checks=15000, shards=5, timeout=600),
-                thorough=dict(checks=500000, shards=15, timeout=3300, fuzz=("FuzzC17", 180)),
+                thorough=dict(checks=500000, shards=15, timeout=10800, fuzz=("FuzzC17", 180)),
                 rule="two generators. (1) JSON texts of ApiConfig built from a drawn message by a schema-driven renderer - valid by construction (camelCase or snake_case names, numbers as "
                      "numbers / integral floats / exponents / strings, enums by name or number incl. unknown numbers, null for singular fields, arbitrary whitespace and order, zero values written or omitted) "
                      "or carrying exactly one of 28 injected faults - checked for accept/reject, equality with the expected message and a lossless round trip; every 10th valid case also goes through "
@@ -137,7 +137,7 @@ PROPS.update({
                 parts=[dict(pkg="./icept", test="TestC12", replay_key="steps"), dict(pkg="./icept", test="TestC12", replay_key="steps"), dict(pkg="./icept", test="TestC12", replay_key="steps"),
                        dict(pkg="./conc", test="TestSchedC12", replay_key="schedule", quick_checks=300, thorough_checks=15000)],
                 quick=dict(checks=10000, shards=4, timeout=600),
-                thorough=dict(checks=400000, shards=16, timeout=3300),
+                thorough=dict(checks=400000, shards=16, timeout=10800),
                 rule="stream programs: per-creation outcomes (ok / error / blocks until the context ends), up to 14 steps distributed over a sender, a receiver and a third goroutine "
                      "(SendMsg, RecvMsg, CloseSend, Header, Trailer, Context, context cancellation or deadline, message delivery), fake underlying stream that records every call; "
                      "executed in a synctest bubble, synctest.Wait() after each step decides returned vs durably blocked. Oracle: no stream before the first SendMsg, exactly one after a success, "
@@ -150,7 +150,7 @@ PROPS.update({
                                         "while a blocking stream creation holds the stream's mutex no other method is issued (mutex waits are not observable in a synctest bubble)"]),
     "C11": dict(kind="harness", pkg="./keys", test="TestC11",
                 quick=dict(checks=40000, shards=2, timeout=600),
-                thorough=dict(checks=1000000, shards=16, timeout=3300, fuzz=("FuzzC11", 180)),
+                thorough=dict(checks=1000000, shards=16, timeout=10800, fuzz=("FuzzC11", 180)),
                 rule="(type, value, locator) triples: struct types built with reflect.StructOf from a drawn shape tree (depth<=3; string,int,bool,*string,[]string,[]int,"
                      "struct,*struct,[]struct,[]*struct; colliding field names), values with nil pointers / nil and empty slices / nil list elements at every depth, locators = "
                      "a valid path of the type, mutated in 35% of the cases (case, extra/dropped/doubled/empty segments, unicode); 10% exotic Go values (embedded nil pointers, "
@@ -196,7 +196,7 @@ def _gme(test, rule, nontriv):
                 parts=[dict(pkg="./gmesim", test=test, replay_key="ops"), dict(pkg="./gmesim", test=test, replay_key="ops"), dict(pkg="./gmesim", test=test, replay_key="ops"),
                        dict(pkg="./conc", test=test.replace("Test", "TestConc"), replay_key="goroutines", quick_checks=150, thorough_checks=7000)],
                 quick=dict(checks=350, shards=4, timeout=900),
-                thorough=dict(checks=14000, shards=12, timeout=3500),
+                thorough=dict(checks=14000, shards=12, timeout=10800),
                 rule="rapid-generated histories over a real GCPMultiEndpoint and four in-memory (bufconn) gRPC servers: option sets with 1-3 named MultiEndpoints over shared endpoints "
                      "(add/remove/rename MultiEndpoints, add/remove/reorder endpoints, change default), endpoint outages and recoveries (dialer refuses + live connections closed), RPCs (unary and stream) "
                      "with no / known / unknown MultiEndpoint name; a recording interceptor appended in DialFunc tells which pool every RPC entered. " + rule +
